@@ -238,7 +238,7 @@ func runDNSCase(run *ev.Run, fd *fakeDNS, cs dnsCase) {
 	ttl, _ := time.ParseDuration(cs.TTL)
 	rd := &recDialer{mode: cs.Mode}
 	tr := &http.Transport{DialContext: rd.DialContext, DisableKeepAlives: true}
-	atk := vegeta.NewAttacker(vegeta.Client(&http.Client{Transport: tr}), vegeta.DNSCaching(ttl), vegeta.Workers(uint64(cs.Workers)), vegeta.MaxWorkers(uint64(cs.Workers)))
+	atk := vegeta.NewAttacker(vegeta.Client(&http.Client{Transport: tr}), vegeta.DNSCaching(ttl), vegeta.Workers(uint64(cs.Workers)), vegeta.MaxWorkers(uint64(cs.Workers)), vegeta.Timeout(4*time.Second))
 	defer atk.Stop() // ends the refresh goroutine
 	dial := tr.DialContext
 	port := "8080"
@@ -254,7 +254,19 @@ func runDNSCase(run *ev.Run, fd *fakeDNS, cs dnsCase) {
 		p := &recPacer{base: time.Now()}
 		p.decide = func(i int, _ time.Duration, _ uint64) (time.Duration, bool) { return 0, i >= cs.Dials }
 		tgt := vegeta.NewStaticTargeter(vegeta.Target{Method: "GET", URL: "http://" + net.JoinHostPort(cs.Host, port) + "/"})
-		for range atk.Attack(tgt, p, 0, "c18") {
+		// the recording dialer answers at once (or after 2 ms), so no hit can run into the client's
+		// timeout (30 s); hits that do are stuck in the dial path: three of them end the case
+		stuck := 0
+		for r := range atk.Attack(tgt, p, 0, "c18") {
+			if strings.Contains(r.Error, "Client.Timeout") || strings.Contains(r.Error, "deadline exceeded") {
+				if stuck++; stuck == 3 {
+					atk.Stop()
+				}
+			}
+		}
+		if stuck >= 3 {
+			viol("dial-never-returns", "dns-attack", fmt.Sprintf("%d hits ran into the client timeout although every connection attempt is answered at once: the DNS-caching dial does not return", stuck), nil)
+			return
 		}
 	} else {
 		var wg sync.WaitGroup
@@ -275,7 +287,18 @@ func runDNSCase(run *ev.Run, fd *fakeDNS, cs dnsCase) {
 				}
 			}()
 		}
-		wg.Wait()
+		// every dial returns: with all callers parked for good (the in-process DNS server waiting
+		// for queries does not count) the dial path has deadlocked
+		all := make(chan struct{})
+		go func() { wg.Wait(); close(all) }()
+		switch st, dump := awaitEndIgnoring(all, 5*time.Minute, func(g gInfo) bool { return g.State == "IO wait" || g.State == "sleep" && !isVegetaG(g) }); st {
+		case endDeadlock:
+			viol("dial-never-returns", "dns", fmt.Sprintf("after %d recorded attempts every dialling goroutine is parked for good inside the DNS-caching dial", len(rd.take())), map[string]any{"goroutines": tail(dump, 3000)})
+			return
+		case endWatchdog:
+			run.Inconclusive("DNS dial history did not finish within 5 minutes")
+			return
+		}
 	}
 	recs := rd.take()
 	run.Eval(1)
@@ -710,13 +733,43 @@ func runRaceCase(run *ev.Run, fd *fakeDNS, port string, h2cPort string, cs raceC
 	}
 	pc := &recPacer{base: time.Now()}
 	pc.decide = func(i int, _ time.Duration, _ uint64) (time.Duration, bool) { return 0, i >= cs.Hits }
-	ok, failed := 0, 0
-	for r := range atk.Attack(vegeta.NewStaticTargeter(targets...), pc, 0, "c18race") {
-		if r.Error == "" {
-			ok++
-		} else {
-			failed++
+	ok, failed, timedOut := 0, 0, 0
+	fin := make(chan struct{})
+	results := atk.Attack(vegeta.NewStaticTargeter(targets...), pc, 0, "c18race")
+	go func() {
+		defer close(fin)
+		for r := range results {
+			if r.Error == "" {
+				ok++
+			} else {
+				failed++
+				// the loopback listeners answer at once: a hit that runs into the 5 s client timeout is
+				// stuck in the dial path (or the machine is starved); ten of them end the case
+				if strings.Contains(r.Error, "Client.Timeout") || strings.Contains(r.Error, "deadline exceeded") {
+					if timedOut++; timedOut == 10 {
+						atk.Stop()
+					}
+				}
+			}
 		}
+	}()
+	// a hit whose dial never returns is beyond the reach of the client timeout (the HTTP/2 transport
+	// dials inside RoundTrip): with every goroutine parked for good the attack will never end
+	switch st, dump := awaitEndIgnoring(fin, 20*time.Minute, func(g gInfo) bool { return g.State == "IO wait" || g.State == "sleep" && !isVegetaG(g) }); st {
+	case endDeadlock:
+		run.Violate("C18/dial-never-returns/race-attack", fmt.Sprintf("%+v: the attack does not end: every goroutine is parked for good, hits are stuck in the dial path", cs), map[string]any{"case": cs, "goroutines": tail(dump, 3000)})
+		return
+	case endWatchdog:
+		run.Inconclusive(fmt.Sprintf("race attack %+v did not end within 20 minutes", cs))
+		return
+	}
+	if timedOut >= 10 {
+		if ok == 0 {
+			run.Violate("C18/dial-never-returns/race-attack", fmt.Sprintf("%+v: %d hits ran into the client timeout and none succeeded although the loopback listeners answer at once: the dial path does not return", cs, timedOut), map[string]any{"case": cs, "timed_out": timedOut})
+		} else {
+			run.Inconclusive(fmt.Sprintf("race attack %+v: %d hits timed out next to %d successful ones (starved machine?)", cs, timedOut, ok))
+		}
+		return
 	}
 	run.Eval(1)
 	run.Count("race_attacks", 1)
@@ -781,7 +834,25 @@ func c18Child(c *Ctx) int {
 	defer fd.srv.Shutdown()
 	switch mode {
 	case "dns":
-		runDNSRefreshCase(run, fd, fmt.Sprintf("refresh%d.s%d.verif.test", shard, c.Seed%1000), []time.Duration{40 * time.Millisecond, 25 * time.Millisecond, 80 * time.Millisecond}[shard%3])
+		{
+			// in a goroutine of its own: a dial that never returns must not hang the monitor
+			host := fmt.Sprintf("refresh%d.s%d.verif.test", shard, c.Seed%1000)
+			fin := make(chan struct{})
+			go func() {
+				defer close(fin)
+				runDNSRefreshCase(run, fd, host, []time.Duration{40 * time.Millisecond, 25 * time.Millisecond, 80 * time.Millisecond}[shard%3])
+			}()
+			switch st, dump := awaitEndIgnoring(fin, 10*time.Minute, func(g gInfo) bool { return g.State == "IO wait" || g.State == "sleep" && !isVegetaG(g) }); st {
+			case endDeadlock:
+				run.Violate("C18/dial-never-returns/dns", fmt.Sprintf("a connection attempt for %s (records changing during the history) never returns: every goroutine is parked for good", host), map[string]any{"host": host, "goroutines": tail(dump, 3000)})
+				fmt.Println(run.BlobLine())
+				return 0
+			case endWatchdog:
+				run.Inconclusive("the DNS history with changing records did not finish within 10 minutes")
+				fmt.Println(run.BlobLine())
+				return 0
+			}
+		}
 		for i := 0; i < n; i++ {
 			cs := dnsCase{
 				Host:    fmt.Sprintf("h%d-%d.s%d.verif.test", shard, i, c.Seed%1000),
